@@ -331,7 +331,7 @@ impl Prop for C03 {
             Case::Explore(spec) => {
                 let entries = spec.src.entries();
                 let bytes = write_file(&spec.conf, &entries)?;
-                let d = fmtdec::decode(&bytes, &fmtdec::Opts { interval: None, check_order: false }).ok();
+                let d = fmtdec::decode(&bytes, &fmtdec::Opts::lax()).ok();
                 let r = explore(&bytes, &entries, 60_000)?;
                 obs.add("states", r.states);
                 obs.add("transitions", r.transitions);
@@ -356,7 +356,7 @@ impl Prop for C03 {
             Case::History { spec, ops } => {
                 let entries = spec.src.entries();
                 let bytes = write_file(&spec.conf, &entries)?;
-                let d = fmtdec::decode(&bytes, &fmtdec::Opts { interval: None, check_order: false }).ok();
+                let d = fmtdec::decode(&bytes, &fmtdec::Opts::lax()).ok();
                 let leaf = d.as_ref().filter(|d| d.trailer.levels >= 2).map(leaf_map);
                 let (crossed, judged) = run_history(&bytes, &entries, ops, leaf.as_deref())?;
                 obs.add("history_ops", ops.len() as u64);
